@@ -267,8 +267,22 @@ def check_view(spec, ctx):
     g = spec["genome"]
     cs, ce = spec["chunk"]
     cst = spec.get("chunk_strand", "+")
-    PA, PB = chrom_parent(g), chunk_parent(g, cs, ce, strand=cst)
+    idiom = spec.get("chunk_idiom", "api")
     o = spec["obj"]
+    d_ = spec.get("decoy_shift")
+    if d_ and 0 <= cs + d_ and ce + d_ <= len(g) and g[cs + d_:ce + d_] == g[cs:ce]:
+        # another chunk of the same chromosome with the very same bases but a different window was used just before (repeats,
+        # low-complexity sequence): value-keyed caches must not hand its Parent out for this one
+        decoy = chunk_parent(g, cs + d_, ce + d_, strand=cst, idiom=idiom)
+        try:
+            D = {"feat": mkfeat, "cds": mkcds, "tx": mktx, "gene": mkgene, "fc": mkfc, "collection": mkcollection}[kind](o, decoy)
+            getattr(D, "chunk_relative_location", None)
+        except Exception:
+            pass
+        ctx.label("decoy_chunk_with_same_bases")
+    if idiom == "docstring":
+        ctx.label("chunk_parent_docstring_idiom")
+    PA, PB = chrom_parent(g), chunk_parent(g, cs, ce, strand=cst, idiom=idiom)
     if cst == "-":
         ctx.label("minus_strand_chunk")
     if cs > 0:
@@ -391,6 +405,12 @@ def strat_view(draw, tier="quick"):
         cs = draw(st.integers(0, n - 1))
         ce = draw(st.integers(cs + 1, n))
     sp = {"kind": kind, "obj": o, "genome": g, "chunk": [cs, ce]}
+    sp["chunk_idiom"] = draw(st.sampled_from(["api", "api", "docstring"]))
+    if draw(st.integers(0, 3)) == 0:
+        # low-complexity chromosome: windows shifted by a multiple of the repeat unit hold the same bases
+        unit = draw(st.text(alphabet="ACGT", min_size=1, max_size=3))
+        sp["genome"] = (unit * (n // len(unit) + 1))[:n]
+        sp["decoy_shift"] = len(unit) * draw(st.sampled_from([-2, -1, 1, 1, 2]))
     if kind in ("feat", "tx", "cds") and draw(st.integers(0, 3)) == 0:
         sp["chunk_strand"] = "-"   # the chunk is the reverse complement of its window (seq_chunk_to_parent(strand=MINUS))
     return sp
